@@ -738,3 +738,134 @@ def check_c15(prop, tier, replay, selftest):
     res.assumptions = ["TLC evaluates AdfSem / Cli!Sections correctly", "a flag that an arm does not implement contributes no section (DESIGN.md 6/C15)",
                        "labels do not contain the two characters ') ' (stdout tokenisation)", "--counter is not combined with semantics flags here"]
     return res.finish()
+
+
+# ------------------------------------------------------------------ C12 (cargo feature configurations)
+ALL_COMBOS = [(c, vl, fe) for c in ("none", "paths", "models") for vl in (True, False) for fe in (True, False)]
+
+
+def combo_features(c, vl, fe):
+    f = []
+    if c == "paths":
+        f.append("adhoccounting")
+    if c == "models":
+        f.append("adhoccountmodels")
+    if vl:
+        f.append("variablelist")
+    if fe:
+        f.append("frontend")
+    return f
+
+
+def combo_name(c, vl, fe):
+    return "%s%s%s" % (c, "+vl" if vl else "", "+fe" if fe else "")
+
+
+def feat_workload(binary, tag, tier):
+    """the same seeded workload on a build: semantics (C01-C05), store operations + queries, histories"""
+    outs = {}
+    for sub, args in (("sem", ["sem", "--props", "C01,C02,C03,C04,C05", "--tier", "feat"]),
+                      ("bdd", ["bdd", "--tier", "quick", "--nseq", "60" if tier == "quick" else "200"]),
+                      ("hist", ["hist", "--tier", "feat"])):
+        out = os.path.join(WORK, "feat_%s_%s.ndjson" % (tag, sub))
+        run_harness(binary, args + ["--out", out])
+        outs[sub] = out
+    return outs
+
+
+def trace_bdd_cfg(c, vl):
+    """Trace_Bdd configuration whose model constants match the build (step-level conformance)"""
+    name = "Trace_Bdd_%s_%s.cfg" % (c, "vl" if vl else "novl")
+    with open(os.path.join(SPEC, name), "w") as f:
+        f.write("SPECIFICATION Spec\nCONSTANTS VariableList = %s\n          AdHocCounting = %s\n          AdHocModels = %s\nPOSTCONDITION Consumed\nCHECK_DEADLOCK FALSE\n"
+                % ("TRUE" if vl else "FALSE", "TRUE" if c != "none" else "FALSE", "TRUE" if c == "models" else "FALSE"))
+    return name
+
+
+@register("C12")
+def check_c12(prop, tier, replay, selftest):
+    res = Result(prop, tier)
+    os.makedirs(WORK, exist_ok=True)
+    default_bin = build_harness()
+    base = feat_workload(default_bin, "default", tier)
+    combos = ALL_COMBOS if tier == "thorough" else [("none", False, False), ("models", True, True), ("paths", False, True), ("none", True, False)]
+    combos = [c for c in combos if c != ("paths", True, True)]           # that one IS the default build
+    tdir = os.path.join(HARNESS, "target-feat")
+    if selftest:
+        combos = combos[:1]
+    res.add_mc(require_mc(tlc_mc("Robdd", "Robdd_nv2_novl.cfg", workers=12, timeout=900)))
+    res.add_mc(require_mc(tlc_mc("Robdd", "Robdd_nv2_models.cfg", workers=12, timeout=900)))
+    res.add_mc(require_mc(tlc_mc("Robdd", "Robdd_nv2_nocount.cfg", workers=12, timeout=900)))
+    nrec = 0
+    seen = set()
+    for (c, vl, fe) in combos:
+        name = combo_name(c, vl, fe)
+        binary = build_harness(features=combo_features(c, vl, fe), target_dir=tdir)
+        outs = feat_workload(binary, name, tier)
+        # (1) every build satisfies the same property-level predicates (same Trace modules; feature-dependent parts keyed on r.feat)
+        for sub, module, kw in (("sem", "Trace_Sem", {}), ("bdd", "Trace_Bdd", {"boundary": is_reset, "cfg": trace_bdd_cfg(c, vl)}),
+                                ("hist", "Trace_Bdd", {"boundary": is_reset, "cfg": trace_bdd_cfg(c, vl)})):
+            tr = tlc_trace(module, outs[sub], **kw)
+            res.add_trace(tr)
+            for gl, t in tr["tuples"]:
+                if gl is not None and t[0] == "MISMATCH":
+                    rec = json.loads(tr["lines"][gl - 1])
+                    slim = {k: v for k, v in rec.items() if k not in ("dump",)}
+                    res.violation("%s_%s_%s" % (name, rec.get("id"), json.dumps(t[4:])[:40]),
+                                  {"property": prop, "component": "feature-build:" + name, "features": combo_features(c, vl, fe), "record": slim, "mismatch": t},
+                                  "C12 build %s violates %s/%s on record %s" % (name, t[3], json.dumps(t[4:]), rec.get("id")))
+                elif gl is not None and t[0] == "DRIFT":
+                    res.drift.append({"build": name, "record": t[2]})
+        # (2) record-by-record comparison with the default build
+        cmp_path = os.path.join(WORK, "featcmp_%s.ndjson" % name)
+        with open(cmp_path, "w") as f:
+            for sub in ("sem", "bdd", "hist"):
+                with open(base[sub]) as fa, open(outs[sub]) as fb:
+                    for la, lb in zip(fa, fb):
+                        a, b = json.loads(la), json.loads(lb)
+                        k = a.get("kind")
+                        if k == "adf":
+                            strip = lambda calls: [{x: c_[x] for x in ("c", "b", "h", "st", "r")} for c_ in calls]
+                            rec = {"what": "sem", "id": a["id"], "default": strip(a["calls"]), "variant": strip(b["calls"])}
+                        elif k == "op":
+                            rec = {"what": "op", "id": a["id"], "default": [a["r"], a["nodes"]], "variant": [b["r"], b["nodes"]]}
+                        elif k == "query":
+                            rec = {"what": "query", "id": a["id"], "default": a, "variant": b, "feat_default": a["feat"], "feat_variant": b["feat"]}
+                            seen.add((name, a["id"]))
+                        elif k == "hist":
+                            strip = lambda calls: [[c_["c"], c_["a"], c_["a_st"]] for c_ in calls]
+                            rec = {"what": "hist", "id": a["id"], "default": strip(a["calls"]), "variant": strip(b["calls"])}
+                        else:
+                            continue
+                        rec["kind"] = "featcmp"
+                        rec["build"] = name
+                        f.write(json.dumps(rec) + "\n")
+                        nrec += 1
+        if selftest:
+            def corrupt(rec):
+                if rec.get("what") != "query":
+                    return None
+                rec["variant"]["depth"] += 1
+                return rec
+            ok = selftest_corrupt("Trace_Feat", cmp_path, corrupt)
+            print("SELFTEST %s: %s" % (prop, "binding demonstrated" if ok else "FAILED"))
+            return 0 if ok else 2
+        tr = tlc_trace("Trace_Feat", cmp_path)
+        res.add_trace(tr)
+        for gl, t in tr["tuples"]:
+            if gl is not None and t[0] == "MISMATCH":
+                rec = json.loads(tr["lines"][gl - 1])
+                res.violation("%s_cmp_%s_%s" % (name, rec["id"], json.dumps(t[4])[:40]),
+                              {"property": prop, "component": "feature-compare:" + name, "features": combo_features(c, vl, fe), "record": rec, "mismatch": t},
+                              "C12 build %s differs from the default build: %s on %s" % (name, json.dumps(t[4]), rec["id"]))
+    shutil.rmtree(tdir, ignore_errors=True)
+    res.evaluations = nrec
+    res.distinct = seen
+    res.extra["feature_builds"] = [combo_name(*c) for c in combos]
+    res.rule = ("records = the same seeded workload (every semantics variant on ~500 ADFs, store operation sequences with all queries, call histories) "
+                "run on a harness built under each feature set and on the default build, paired record by record; distinct = distinct (build, diagram query); "
+                "non-trivial = every query record (paths, models, depth, dependencies, impacts, cubes)")
+    res.samples = [{"build": combo_name(*combos[0]), "features": combo_features(*combos[0])}]
+    res.assumptions = ["TLC evaluates the Trace modules correctly", "cargo features are forwarded by the harness crate to adf_bdd (default-features = false)",
+                       "quick tier: 4 of the 11 non-default combinations; thorough: all"]
+    return res.finish()
